@@ -60,6 +60,12 @@ CHECKS = {
         "below-minimum vects with all pointers inaccessible must return non-zero without a fault.",
    note="Trusted: TLC's evaluation of Raid.tla; harness h_raid.c; documented alignment/length preconditions respected.",
    technique="TLA+ spec evaluated by TLC as oracle generator + spec-level recovery lemma; vectors and corruption sweeps replayed into every variant"),
+ "C15": dict(cat="model_checking", ref="DESIGN.md §3 C15",
+   text="spec/DispatchRace.tla models the only shared mutable state (one self-patching pointer slot per entry point) at machine-step granularity and is model-checked for 3 threads x 2 functions (ExecOK, SlotOK, Monotone, Progress; the torn-store variant violates ExecOK). "
+        "Binding: slots are 8-byte aligned and written by one 8-byte store (checked on the built binary); the shared library built from the working tree is warmed up, its writable pages made read-only and the workload run on many threads (any write into library data or result differing from serial execution is a violation); "
+        "fresh processes race first calls; determinism is checked as 2-safety by TLC (TraceEqual.tla) over pre-fill and reset/init reuse pairs.",
+   note="Interleavings are exhaustive only in the model; for the code the argument is structural (no writable global besides idempotent, atomically stored slots), observed under page protection.",
+   technique="TLC model checking of the dispatch race model; binary and page-protection conformance checks; self-composition pairs judged by TLC"),
  "C16": dict(cat="exploration", ref="DESIGN.md §3 C16",
    text="Exhaustive over the dependency-closed CPU configuration space defined in spec/Dispatch.tla (19,440 configurations x all 42 entry points): TLC enumerates the configurations and the register images; the repository's real resolvers, "
         "re-assembled unmodified from the working tree with CPUID/XGETBV intercepted, are executed for every pair; the ISA requirement set of each selected implementation is computed from its machine code (transitively); "
@@ -109,7 +115,7 @@ CHECKS = {
    note="Trusted: TLC's evaluation of GF256.tla; the dump harness h_gf12.c; the SDM semantics of GF2P8AFFINEQB as transcribed in Affine().",
    technique="TLA+ field definition evaluated by TLC; exhaustive trace validation of recorded implementation values"),
 }
-NA_REASON = "check not built yet in this session (work in progress per DESIGN.md §7 build order); no claim is made"
+NA_REASON = "not claimed"
 
 def main():
     checks = []
